@@ -11,8 +11,8 @@ use crate::rm::time::Inst;
 use crate::run::{finish, preflight, Ctx, Report, Tally, Tier, Violation};
 use std::panic::{catch_unwind, AssertUnwindSafe};
 
-const DICT: [&str; 40] = [
-    "%", "%2", "%zz", "%2F", "%2f", "%00", "%FF", "+", "..", ".", "//", "/", "?", "&", "=", "&&", "==", ";", "X-Amz-Algorithm=AWS4-HMAC-SHA256",
+const DICT: [&str; 45] = [
+    "%€", "%a€", "%z😀", "%1é", "€", "%", "%2", "%zz", "%2F", "%2f", "%00", "%FF", "+", "..", ".", "//", "/", "?", "&", "=", "&&", "==", ";", "X-Amz-Algorithm=AWS4-HMAC-SHA256",
     "X-Amz-Algorithm=", "X-Amz-Credential=", "X-Amz-Credential=AKIA%2F20150830%2Fus-east-1%2Fservice%2Faws4_request", "X-Amz-Date=20150830T123600Z",
     "X-Amz-Date=", "X-Amz-Signature=", "X-Amz-Signature=0000", "X-Amz-SignedHeaders=host", "X-Amz-SignedHeaders=%zz", "X-Amz-SignedHeaders=%",
     "X-Amz-Security-Token=", "AKIA/20150830/us-east-1/service/aws4_request", "é", "日", "a", "A0", "~", "!", "*", "'", "%25%32%46",
